@@ -2,6 +2,7 @@
 
 use crate::error::JsError;
 use crate::interpreter::Interpreter;
+use crate::interpreter::builtins::relative_index;
 use crate::prelude::{String, ToString, Vec, format, math, vec};
 use crate::value::{CheapClone, Guarded, JsObjectRef, JsString, JsValue, PropertyKey};
 
@@ -369,12 +370,11 @@ pub fn string_ends_with(
         Some(v) => interp.to_js_string(v),
         None => interp.intern(""),
     };
-    let end_position = args
-        .get(1)
-        .map(|v| v.to_number() as usize)
-        .unwrap_or(s.len());
-
-    let end = end_position.min(s.len());
+    // A missing or undefined end position means the end of the string
+    let end = match args.get(1) {
+        None | Some(JsValue::Undefined) => s.len(),
+        Some(v) => v.to_integer_or_infinity().clamp(0.0, s.len() as f64) as usize,
+    };
     Ok(Guarded::unguarded(JsValue::Boolean(
         s.as_str()
             .get(..end)
@@ -389,21 +389,10 @@ pub fn string_slice(
     args: &[JsValue],
 ) -> Result<Guarded, JsError> {
     let s = interp.to_js_string(&this);
-    let len = s.len() as i64;
+    let len = s.len();
 
-    let start_arg = args.first().map(|v| v.to_number() as i64).unwrap_or(0);
-    let end_arg = args.get(1).map(|v| v.to_number() as i64).unwrap_or(len);
-
-    let start = if start_arg < 0 {
-        (len + start_arg).max(0)
-    } else {
-        start_arg.min(len)
-    } as usize;
-    let end = if end_arg < 0 {
-        (len + end_arg).max(0)
-    } else {
-        end_arg.min(len)
-    } as usize;
+    let start = relative_index(args.first(), len, 0);
+    let end = relative_index(args.get(1), len, len);
 
     if start >= end {
         return Ok(Guarded::unguarded(JsValue::String(JsString::from(""))));
@@ -428,21 +417,13 @@ pub fn string_substring(
     let s = interp.to_js_string(&this);
     let len = s.len();
 
-    let start = args
-        .first()
-        .map(|v| {
-            let n = v.to_number();
-            if n.is_nan() { 0 } else { (n as usize).min(len) }
-        })
-        .unwrap_or(0);
-
-    let end = args
-        .get(1)
-        .map(|v| {
-            let n = v.to_number();
-            if n.is_nan() { 0 } else { (n as usize).min(len) }
-        })
-        .unwrap_or(len);
+    // Both positions are clamped to 0..=len; a missing or undefined end means len
+    let clamp = |v: &JsValue| v.to_integer_or_infinity().clamp(0.0, len as f64) as usize;
+    let start = args.first().map(clamp).unwrap_or(0);
+    let end = match args.get(1) {
+        None | Some(JsValue::Undefined) => len,
+        Some(v) => clamp(v),
+    };
 
     let (start, end) = if start > end {
         (end, start)
@@ -468,37 +449,18 @@ pub fn string_substr(
 ) -> Result<Guarded, JsError> {
     let s = interp.to_js_string(&this);
     let chars: Vec<char> = s.as_str().chars().collect();
-    let len = chars.len() as i64;
-
-    // Get start index
-    let start_arg = args.first().map(|v| v.to_number()).unwrap_or(0.0);
-    let mut start = if start_arg.is_nan() {
-        0
-    } else {
-        start_arg as i64
-    };
+    let len = chars.len();
 
     // Negative start counts from end
-    if start < 0 {
-        start = (len + start).max(0);
-    }
+    let start_idx = relative_index(args.first(), len, 0);
 
-    // If start is beyond string length, return empty string
-    if start >= len {
-        return Ok(Guarded::unguarded(JsValue::String(JsString::from(""))));
-    }
+    // Get length (default: rest of string), clamped so that start + length cannot overflow
+    let length = match args.get(1) {
+        None | Some(JsValue::Undefined) => len,
+        Some(v) => v.to_integer_or_infinity().clamp(0.0, len as f64) as usize,
+    };
 
-    // Get length (default: rest of string)
-    let length = args
-        .get(1)
-        .map(|v| {
-            let n = v.to_number();
-            if n.is_nan() || n < 0.0 { 0 } else { n as usize }
-        })
-        .unwrap_or((len - start) as usize);
-
-    let start_idx = start as usize;
-    let end_idx = (start_idx + length).min(chars.len());
+    let end_idx = (start_idx + length).min(len);
 
     let result: String = chars
         .get(start_idx..end_idx)
